@@ -223,3 +223,8 @@ Definition argv_check (cwd inp : string) (out : option string) (seen : list stri
   | [_; a1; a2], [_; b1; b2] => String.eqb a1 b1 && String.eqb a2 b2
   | _, _ => false
   end.
+
+(* observed files of one direct GEOPHIRESv3.main() run against main_files *)
+Definition direct_check (cwd pkg : string) (argv : list string) (obs_files : list string) : bool :=
+  let fs := main_files cwd pkg argv in
+  same_set obs_files (fs_canon (f_report fs) :: match f_json fs with Some j => [fs_canon j] | None => [] end).
